@@ -262,37 +262,65 @@ def project(dump, label, max_tokens):
     return rows
 
 
-def judge(rows):
-    """TLC evaluates DumpInv.tla on batches of rows (in parallel processes). Returns {name: verdict row}."""
-    batches, cur, size = [], [], 0
-    for r in rows:
-        w = len(r["a"]["tokens"]) + 50
-        if cur and size + w > 40000:
-            batches.append(cur)
-            cur, size = [], 0
-        cur.append(r)
-        size += w
-    if cur:
-        batches.append(cur)
-    work = vlib.mktmp("c14tlc")
+class Judge:
+    """Streams rows into ndjson batches and lets TLC evaluate DumpInv.tla on each batch (NPROC_TLC processes at a time)."""
 
-    def one(k):
-        inp = os.path.join(work, "in%d.ndjson" % k)
-        out = os.path.join(work, "out%d.ndjson" % k)
-        vlib.write_ndjson(inp, batches[k])
-        r = vlib.tlc("DumpInv", "DumpInv.cfg", env={"DUMPS": inp, "OUT": out}, workers=1, timeout=1500, xmx="3g")
-        if not r.ok or '"DUMPS", %d,' % len(batches[k]) not in r.out:
-            raise vlib.InfraError("model failure in DumpInv.tla (rc=%s) first row %s\n%s" % (r.rc, batches[k][0]["name"], r.out[-2500:]))
+    def __init__(self):
+        self.work = vlib.mktmp("c14tlc")
+        self.pool = concurrent.futures.ThreadPoolExecutor(NPROC_TLC)
+        self.futures = []
+        self.k = 0
+        self.f = None
+        self.size = 0
+        self.count = 0
+        self.first = None
+
+    def add(self, row):
+        if self.f is None:
+            self.path = os.path.join(self.work, "in%d.ndjson" % self.k)
+            self.f = open(self.path, "w")
+            self.size = self.count = 0
+            self.first = row["name"]
+        self.f.write(json.dumps(row, sort_keys=True))
+        self.f.write("\n")
+        self.size += len(row["a"]["tokens"]) + 50
+        self.count += 1
+        if self.size > 40000:
+            self.flush()
+
+    def flush(self):
+        if self.f is None:
+            return
+        self.f.close()
+        self.f = None
+        self.futures.append(self.pool.submit(self._one, self.path, self.k, self.count, self.first))
+        self.k += 1
+
+    def _one(self, inp, k, count, first):
+        out = os.path.join(self.work, "out%d.ndjson" % k)
+        r = vlib.tlc("DumpInv", "DumpInv.cfg", env={"DUMPS": inp, "OUT": out, "JAVA_TOOL_OPTIONS": "-Xss32m"}, workers=1, timeout=1800, xmx="3g")
+        if not r.ok or '"DUMPS", %d,' % count not in r.out:
+            raise vlib.InfraError("model failure in DumpInv.tla (rc=%s) first row %s\n%s" % (r.rc, first, r.out[-2500:]))
         res = vlib.read_ndjson(out)
         os.unlink(inp)
         return res
 
-    bad = {}
-    with concurrent.futures.ThreadPoolExecutor(NPROC_TLC) as ex:
-        for res in ex.map(one, range(len(batches))):
-            for v in res:
+    def result(self):
+        """{name: verdict row of TLC} for the rows with a violated invariant, number of batches."""
+        self.flush()
+        bad = {}
+        for fu in self.futures:
+            for v in fu.result():
                 bad[v["name"]] = v
-    return bad, len(batches)
+        self.pool.shutdown()
+        return bad, self.k
+
+
+def judge(rows):
+    j = Judge()
+    for r in rows:
+        j.add(r)
+    return j.result()
 
 
 def shape(a):
@@ -301,21 +329,49 @@ def shape(a):
     return vlib.digest([[t["str"], pos.get(t["link"], -1), pos.get(t["astParent"], -1), t["varId"]] for t in a["tokens"]])
 
 
+COUNTERS = ("tokens", "links", "ast_edges", "scopes", "functions", "variables", "types", "valuelists", "token_value_refs")
+
+
+def measure(a):
+    return {"tokens": len(a["tokens"]), "links": sum(1 for t in a["tokens"] if t["link"]),
+            "ast_edges": sum(1 for t in a["tokens"] if t["astParent"]), "scopes": len(a["scopes"]), "functions": len(a["functions"]),
+            "variables": len(a["variables"]), "types": len(a["types"]), "valuelists": len(a["valuelists"]),
+            "token_value_refs": sum(1 for l in a["valuelists"] for v in l["values"] if v["tokvalue"] or v["lifetime"] or v["symbolic"])}
+
+
 def explore(inputs, max_tokens):
+    """Runs every input, streams the rows to TLC. Returns (measurements, verdicts of violating rows, name -> input)."""
     vlib.tmproot()
-    stats = {"ok": 0, "nodump": 0, "crash": 0, "timeout": 0}
-    rows, by_name = [], {}
+    m = {"status": {"ok": 0, "nodump": 0, "crash": 0, "timeout": 0}, "judged": 0, "skipped": 0, "nocfg": 0, "shapes": {}, "samples": [],
+         "totals": dict((c, 0) for c in COUNTERS)}
+    by_name = {}
+    jd = Judge()
     with concurrent.futures.ThreadPoolExecutor(NPROC_CPPCHECK) as ex:
         for inp, (status, rws, info) in zip(inputs, ex.map(lambda i: run_input(i, max_tokens), inputs)):
-            stats[status] += 1
+            m["status"][status] += 1
             inp["status"] = status
             inp["ncfg"] = len([r for r in rws if r["hasA"]])
             for r in rws:
                 by_name[r["name"]] = inp
-                rows.append(r)
-    judged = [r for r in rows if "skipped" not in r]
-    bad, nb = judge(judged)
-    return rows, judged, bad, by_name, stats, nb
+                if "skipped" in r:
+                    m["skipped"] += 1
+                    continue
+                m["judged"] += 1
+                if r["hasA"]:
+                    a = r["a"]
+                    c = measure(a)
+                    for k in COUNTERS:
+                        m["totals"][k] += c[k]
+                    if c["links"] and c["ast_edges"]:
+                        m["shapes"].setdefault(shape(a), r["name"])
+                    if len(m["samples"]) < 3 and 20 < c["tokens"] < 120:
+                        m["samples"].append({"name": r["name"], "cfg": a["cfg"], "tokens": " ".join(t["str"] for t in a["tokens"])[:400],
+                                             "scopes": c["scopes"], "variables": c["variables"], "valuelists": c["valuelists"]})
+                else:
+                    m["nocfg"] += 1
+                jd.add(r)
+    bad, m["batches"] = jd.result()
+    return m, bad, by_name
 
 
 def main(tier, seed, replay=None):
@@ -326,7 +382,7 @@ def main(tier, seed, replay=None):
     max_tokens = 1500 if tier == "quick" else 4000
     inputs = base_inputs(tier, seed)
     inputs += mutants(inputs, tier, seed)
-    rows, judged, bad, by_name, stats, nbatches = explore(inputs, max_tokens)
+    m, bad, by_name = explore(inputs, max_tokens)
 
     violations = []
     for name, v in sorted(bad.items()):
@@ -337,14 +393,6 @@ def main(tier, seed, replay=None):
         violations.append({"key": key, "what": "%s: %s | %s" % (name, ",".join(v["bad"]), " | ".join(v["why"])[:600]), "replay": p})
     rc, new, known = vlib.verdict(PID, violations)
 
-    cfgs = [r for r in judged if r["hasA"]]
-    shapes = {}
-    for r in cfgs:
-        a = r["a"]
-        nl = sum(1 for t in a["tokens"] if t["link"])
-        na = sum(1 for t in a["tokens"] if t["astParent"])
-        if nl and na:
-            shapes.setdefault(shape(a), r["name"])
     per_stratum = {}
     for inp in inputs:
         s = per_stratum.setdefault(inp["stratum"], {"inputs": 0, "with_dump_cfg": 0, "cfgs": 0, "multi_cfg_files": 0})
@@ -352,35 +400,24 @@ def main(tier, seed, replay=None):
         s["with_dump_cfg"] += 1 if inp.get("ncfg") else 0
         s["cfgs"] += inp.get("ncfg", 0)
         s["multi_cfg_files"] += 1 if inp.get("ncfg", 0) > 1 else 0
-    tot = lambda f: sum(f(r["a"]) for r in cfgs)  # noqa: E731
-    sample_rows = [r for r in cfgs if 20 < len(r["a"]["tokens"]) < 120][:3]
     cov = {
-        "evaluations": len(judged), "distinct_nontrivial": len(shapes),
+        "evaluations": m["judged"], "distinct_nontrivial": len(m["shapes"]),
         "rule": "one evaluation = one <dump cfg> (or one dump file without configuration) judged by TLC against all DumpInv invariants + SameGraph; "
                 "distinct = different canonical token/link/AST/varId structure (ids replaced by positions); non-trivial = has at least one bracket "
-                "link and one AST edge. Inputs: all samples, all test/cli sources, excerpts of test/cfg (quick: 70 seeded; thorough: all), "
+                "link and one AST edge. Inputs: all samples, all test/cli sources, excerpts of test/cfg (quick: seeded sample; thorough: all), "
                 "multi-#ifdef files, seeded token-level mutants",
-        "samples": [{"name": r["name"], "cfg": r["a"]["cfg"], "tokens": " ".join(t["str"] for t in r["a"]["tokens"])[:400],
-                     "scopes": len(r["a"]["scopes"]), "variables": len(r["a"]["variables"]), "valuelists": len(r["a"]["valuelists"])} for r in sample_rows],
-        "exhaustive": False,
-        "inputs": len(inputs), "run_status": stats, "per_stratum": per_stratum,
-        "dump_files_without_cfg": len([r for r in judged if not r["hasA"]]),
-        "cfgs_skipped_over_token_cap": len(rows) - len(judged), "token_cap": max_tokens,
-        "tokens": tot(lambda a: len(a["tokens"])),
-        "links": tot(lambda a: sum(1 for t in a["tokens"] if t["link"])),
-        "ast_edges": tot(lambda a: sum(1 for t in a["tokens"] if t["astParent"])),
-        "scopes": tot(lambda a: len(a["scopes"])), "functions": tot(lambda a: len(a["functions"])),
-        "variables": tot(lambda a: len(a["variables"])), "types": tot(lambda a: len(a["types"])),
-        "valuelists": tot(lambda a: len(a["valuelists"])),
-        "token_values_refs": tot(lambda a: sum(1 for l in a["valuelists"] for v in l["values"] if v["tokvalue"] or v["lifetime"] or v["symbolic"])),
-        "tlc_batches": nbatches, "violating_rows": len(bad), "known_findings": known,
+        "samples": m["samples"], "exhaustive": False,
+        "inputs": len(inputs), "run_status": m["status"], "per_stratum": per_stratum,
+        "dump_files_without_cfg": m["nocfg"], "cfgs_skipped_over_token_cap": m["skipped"], "token_cap": max_tokens,
+        "tlc_batches": m["batches"], "violating_rows": len(bad), "known_findings": known,
     }
+    cov.update(m["totals"])
     vlib.write_evidence(PID, tier, seed, "exploration", cov, time.time() - t0, violations=new,
                         assumptions=["python xml.etree decides XML well-formedness",
                                      "drivers/dump2nd.py copies attributes / object references without interpreting them",
                                      "runs where cppcheck crashes or times out are not judged"])
     print("C14 %s: %d inputs, %d cfg rows judged (%d distinct non-trivial), %d skipped, status %s, %d violating rows"
-          % (tier, len(inputs), len(judged), len(shapes), len(rows) - len(judged), stats, len(bad)))
+          % (tier, len(inputs), m["judged"], len(m["shapes"]), m["skipped"], m["status"], len(bad)))
     return rc
 
 
